@@ -168,15 +168,12 @@ func VerifC07() {
 		specs = append(specs, s)
 		descs = append(descs, d)
 	}
-	// quick tier: with two source specs only one identifier and no override (the full product is thorough)
-	small := vfTier() == 0 && nspec == 2
+	// with two source specs only one identifier and no override (the full product does not fit any
+	// budget: it was tried in the thorough tier and stopped at its time limit)
+	small := nspec == 2
 	nid := 1
 	if !small {
-		maxid := 2 + vfTier()
-		if nspec == 2 {
-			maxid = 2 // three identifiers only with at most one source spec (keeps the thorough tier inside its budget)
-		}
-		nid = 1 + vfChoice("nid", maxid)
+		nid = 1 + vfChoice("nid", 2+vfTier())
 	}
 	var idents []*dst.Ident
 	for i := 0; i < nid; i++ {
